@@ -46,6 +46,9 @@ func NewSparseInt16Vector(indices []int, values []int16, n int) *SparseInt16Vect
   }
   r := nilSparseInt16Vector(n)
   for i, k := range indices {
+    if k < 0 {
+      panic("negative index")
+    }
     if k >= n {
       panic("index larger than vector dimension")
     }
